@@ -196,10 +196,11 @@ theorem sub_exact (a b : DurTy) (h : PairTyOk a b) (x y : Int) (hin : PairIn a b
 
 /-- `floor<To>(d)` is the greatest integer not above the exact quotient `c · p / q`, also for negative counts.
     `hcmp`: the comparison `t > d` converts `d` and the truncated result to their common type; `hstep`: `t - 1` is a value
-    of `To::rep`. -/
+    of `To::rep` whenever the step is taken (`t > d`). -/
 theorem floor_eq (dst frm : DurTy) (h : CastTyOk dst frm) (hp : PairTyOk frm dst) (c : Int) (hin : CastIn dst frm c)
     (hcmp : PairIn frm dst c (Spec.cast frm.per.toRat dst.per.toRat c))
-    (hstep : dst.rep.inR (Spec.cast frm.per.toRat dst.per.toRat c + -1) = true) :
+    (hstep : Spec.val frm.per.toRat c / dst.per.toRat < ((Spec.cast frm.per.toRat dst.per.toRat c : Int) : ℚ) →
+      dst.rep.inR (Spec.cast frm.per.toRat dst.per.toRat c + -1) = true) :
     floorTo dst frm c = .ok (Spec.floor frm.per.toRat dst.per.toRat c) := by
   unfold floorTo
   rw [floorCtx_eq dst frm h hp]
@@ -209,7 +210,8 @@ theorem floor_eq (dst frm : DurTy) (h : CastTyOk dst frm) (hp : PairTyOk frm dst
 /-- `ceil<To>(d)` is the least integer not below the exact quotient. -/
 theorem ceil_eq (dst frm : DurTy) (h : CastTyOk dst frm) (hp : PairTyOk dst frm) (c : Int) (hin : CastIn dst frm c)
     (hcmp : PairIn dst frm (Spec.cast frm.per.toRat dst.per.toRat c) c)
-    (hstep : dst.rep.inR (Spec.cast frm.per.toRat dst.per.toRat c + 1) = true) :
+    (hstep : ((Spec.cast frm.per.toRat dst.per.toRat c : Int) : ℚ) < Spec.val frm.per.toRat c / dst.per.toRat →
+      dst.rep.inR (Spec.cast frm.per.toRat dst.per.toRat c + 1) = true) :
     ceilTo dst frm c = .ok (Spec.ceil frm.per.toRat dst.per.toRat c) := by
   have hQ := toRat_pos dst.per h.2.2.2.1
   have hcast := castCore_spec dst frm h c hin
@@ -229,7 +231,7 @@ theorem ceil_eq (dst frm : DurTy) (h : CastTyOk dst frm) (hp : PairTyOk dst frm)
   · have hx' : ((Spec.trunc (Spec.val frm.per.toRat c / dst.per.toRat) : Int) : ℚ) < Spec.val frm.per.toRat c / dst.per.toRat := hx
     rw [if_pos hx']
     simp only [hx, decide_true, if_true]
-    rw [step1_eq dst h.1 _ _ hstep]
+    rw [step1_eq dst h.1 _ _ (hstep hx)]
     rfl
   · have hx' : ¬ ((Spec.trunc (Spec.val frm.per.toRat c / dst.per.toRat) : Int) : ℚ) < Spec.val frm.per.toRat c / dst.per.toRat := hx
     rw [if_neg hx']
@@ -293,7 +295,7 @@ theorem round_eq (dst frm : DurTy) (h : RoundTyOk dst frm) (c : Int) (hin : Roun
       pairCtx_eq _ _ hhl.1 hhl.2.1 hhl.2.2.1 hhl.2.2.2.1 hhl.2.2.2.2]
     rfl
   -- run-time steps
-  have s1 := floorCore_spec dst frm hct hfd c i1 i2 i3
+  have s1 := floorCore_spec dst frm hct hfd c i1 i2 (fun _ => i3)
   have h1r : dst.rep.inR 1 = true := by
     obtain ⟨hs, h1, h2⟩ := hrd
     rw [inR_iff]; unfold ITy.min ITy.max; simp only [hs, if_true]
@@ -717,10 +719,10 @@ example : PairIn ⟨i64, ⟨1001, 30000⟩⟩ ⟨i32, ⟨1, 1000⟩⟩ (-7) (-23
 
 /-- the theorems instantiated there: floor = -234, ceil = -233, `-7 ticks < -233 ms` -/
 example : floorTo ⟨i32, ⟨1, 1000⟩⟩ ⟨i64, ⟨1001, 30000⟩⟩ (-7) = .ok (-234) := by
-  rw [floor_eq _ _ (by decide +kernel) (by decide +kernel) _ (by decide +kernel) (by decide +kernel) (by decide +kernel)]
+  rw [floor_eq _ _ (by decide +kernel) (by decide +kernel) _ (by decide +kernel) (by decide +kernel) (fun _ => by decide +kernel)]
   decide +kernel
 example : ceilTo ⟨i32, ⟨1, 1000⟩⟩ ⟨i64, ⟨1001, 30000⟩⟩ (-7) = .ok (-233) := by
-  rw [ceil_eq _ _ (by decide +kernel) (by decide +kernel) _ (by decide +kernel) (by decide +kernel) (by decide +kernel)]
+  rw [ceil_eq _ _ (by decide +kernel) (by decide +kernel) _ (by decide +kernel) (by decide +kernel) (fun _ => by decide +kernel)]
   decide +kernel
 example : lt ⟨i64, ⟨1001, 30000⟩⟩ ⟨i32, ⟨1, 1000⟩⟩ (-7) (-233) = .ok true := by
   rw [lt_eq _ _ (by decide +kernel) _ _ (by decide +kernel)]
